@@ -151,7 +151,22 @@ def plan(chk: C18Check, rng: random.Random) -> List[Dict[str, Any]]:
     subs = [c for c in ctx.with_subs if c in ctx.contracts and ctx.info[c]["lines"] <= 200]
     n_small, n_subs = (7, 3) if quick else (28, 12)
     slice_ = rng.sample(pool, min(n_small, len(pool))) + rng.sample(subs, min(n_subs, len(subs)))
-    slice_ = sorted(set(slice_))
+    # every detector and every result type must have something to count: add, per detector, a
+    # contract for which it reports the most entries (InstructionsOutput findings with several
+    # instructions and ExecutionPaths with several paths included)
+    cands = sorted(pool)[:: max(1, len(pool) // (40 if quick else 120))]
+    cands = sorted(set(cands + [c for c in pool if c.startswith("h")]))
+    best: Dict[str, Tuple[int, str]] = {}
+    for cid in cands:
+        api = chk.api_ref(cid)
+        for name in sorted(api.get("full", {}).get("dets", {})):
+            n_entries = 0
+            for o in api["full"]["dets"][name]["outs"]:
+                n_entries += sum(len(p) if isinstance(p, list) else 1 for p in (o.get("paths") or []))
+            if n_entries > best.get(name, (0, ""))[0]:
+                best[name] = (n_entries, cid)
+    slice_ = sorted(set(slice_ + [cid for _n, cid in best.values()]))
+    chk.c18["detectors_with_findings_in_slice"] = sorted(best)
     # enumeration pass: call events inside tealer.detectors.* before handle_output, per selection
     variants: List[Tuple[str, Optional[List[str]]]] = []
     for cid in slice_:
@@ -267,9 +282,12 @@ def run(tier: str, seed: int, workers: int) -> int:
                 else:
                     seq.append(rng.choice(plain))
             mops = []
+            keep = rng.random() < 0.6  # the export directory survives from one run to the next
             for u, o in enumerate(seq):
                 o2 = dict(o)
                 o2["uid"] = u
+                if keep:
+                    o2["keep_files"] = True
                 mops.append(o2)
             specs.append({"ops": mops, "hashseed": rng.choice(hs), "index": len(specs), "multi": True})
         jobs = [(i, {"ops": s["ops"], "immut": False}, s["hashseed"]) for i, s in enumerate(specs)]
@@ -319,6 +337,7 @@ def run(tier: str, seed: int, workers: int) -> int:
             "filtered_runs": st["filtered_runs"],
             "sessions_with_several_cli_runs_in_one_interpreter": st.get("multi_run_sessions", 0),
             "selections_with_complete_k_enumeration": st["k_enumerated"],
+            "detectors_with_findings_in_slice": st.get("detectors_with_findings_in_slice", []),
             "exhaustive": bool(tier == "thorough" and st["complete"] and st["k_enumerated"]),
         }
         chk.write_evidence(extra_cov=extra, rule=RULE)
